@@ -32,7 +32,7 @@ NSDECL = 'xmlns:t="urn:T" xmlns:p="urn:P" xmlns:q="urn:P"'
 
 def schema_xsd(nf, kind, level, typ, loc, sel):
     def fields():
-        if loc == "attr":
+        if loc in ("attr", "alt"):
             return "".join(f'<xs:field xpath="@a{i}"/>' for i in range(1, nf + 1))
         return "".join(f'<xs:field xpath="t:c{i}"/>' for i in range(1, nf + 1))
 
@@ -42,7 +42,18 @@ def schema_xsd(nf, kind, level, typ, loc, sel):
         return f".//t:{name}" if sel == "desc" else f"t:s/t:{name}"
     cons = (f'<xs:{kind} name="K"><xs:selector xpath="{selector("k")}"/>{fields()}</xs:{kind}>'
             f'<xs:keyref name="R" refer="t:K"><xs:selector xpath="{selector("f")}"/>{fields()}</xs:keyref>')
-    if loc == "attr":
+    rowdecl = '<xs:element name="k" type="t:row"/><xs:element name="f" type="t:row"/>'
+    extra = ""
+    if loc == "alt":
+        # XSD 1.1: the declared type of the rows leaves the fields untyped, a type alternative (always chosen)
+        # gives them their type: the values must be compared in the value space of the ALTERNATIVE's type
+        row = "".join(f'<xs:attribute name="a{i}" type="xs:{typ}"/>' for i in range(1, nf + 1))
+        row = f'<xs:complexContent><xs:restriction base="t:row0">{row}</xs:restriction></xs:complexContent>'
+        extra = ('<xs:complexType name="row0">' + "".join(
+            f'<xs:attribute name="a{i}" type="xs:anySimpleType"/>' for i in range(1, nf + 1)) + '</xs:complexType>')
+        rowdecl = "".join(f'<xs:element name="{n}" type="t:row0"><xs:alternative test="true()" type="t:row"/>'
+                          f'</xs:element>' for n in ("k", "f"))
+    elif loc == "attr":
         row = "".join(f'<xs:attribute name="a{i}" type="xs:{typ}"/>' for i in range(1, nf + 1))
     else:
         row = "<xs:sequence>" + "".join(
@@ -53,12 +64,12 @@ def schema_xsd(nf, kind, level, typ, loc, sel):
             f'<xs:element name="r"><xs:complexType><xs:sequence>'
             f'<xs:element name="s" minOccurs="0" maxOccurs="unbounded"><xs:complexType>'
             f'<xs:choice minOccurs="0" maxOccurs="unbounded">'
-            f'<xs:element name="k" type="t:row"/><xs:element name="f" type="t:row"/>'
+            f'{rowdecl}'
             f'<xs:element name="i" type="t:idrow"/><xs:element name="p" type="t:refrow"/>'
             f'<xs:element name="j" type="xs:ID"/><xs:element name="q" type="t:refsrow"/>'
             f'</xs:choice></xs:complexType>{cons if level == "inner" else ""}</xs:element>'
             f'</xs:sequence></xs:complexType>{cons if level == "outer" else ""}</xs:element>'
-            f'<xs:complexType name="row">{row}</xs:complexType>'
+            f'{extra}<xs:complexType name="row">{row}</xs:complexType>'
             f'<xs:complexType name="idrow"><xs:attribute name="id" type="xs:ID"/></xs:complexType>'
             f'<xs:complexType name="refrow"><xs:attribute name="ref" type="xs:IDREF"/></xs:complexType>'
             f'<xs:complexType name="refsrow"><xs:attribute name="refs" type="xs:IDREFS"/></xs:complexType>'
@@ -80,7 +91,7 @@ def doc_xml(doc, typ, loc):
         for r in scope:
             k, t = r["k"], r["t"]
             if k in "kf":
-                if loc == "attr":
+                if loc in ("attr", "alt"):
                     at = "".join(f' a{i + 1}="{lex(v)}"' for i, v in enumerate(t) if v != "none")
                     out.append(f"<t:{k}{at}/>")
                 else:
@@ -127,6 +138,8 @@ def judge(job):
     out = []
     for ver, typ, loc, sel in variants:
         if rec.get("idver"):
+            if loc == "alt":
+                continue
             ver = rec["idver"]       # the expectation of this record is the one of that XSD version
         key = (ver, rec["nf"], rec["kind"], rec["level"], typ, loc, sel)
         if key not in _schemas:
@@ -247,11 +260,13 @@ def variants_for(i, thorough):
     types = list(LEX)
     if thorough:
         return [(ver, typ, loc, sel) for ver in ("1.0", "1.1") for typ in types
-                for loc in ("attr", "elem") for sel in ("child", "desc")]
+                for loc in ("attr", "elem") for sel in ("child", "desc")] + \
+            [("1.1", typ, "alt", sel) for typ in types if typ != "QName" for sel in ("child", "desc")]
     # quick: rotate through the combinations so that the whole matrix is covered across documents
     combos = [(ver, typ, loc, sel) for ver in ("1.0", "1.1") for typ in types
               for loc in ("attr", "elem") for sel in ("child", "desc")]
-    return [combos[(i * 3 + j * 13) % len(combos)] for j in range(3)]
+    alts = [("1.1", typ, "alt", sel) for typ in types if typ != "QName" for sel in ("child", "desc")]
+    return [combos[(i * 3 + j * 13) % len(combos)] for j in range(3)] + [alts[i % len(alts)]]
 
 
 def configs(tier):
@@ -315,7 +330,7 @@ def run(ctx: Ctx):
     ctx.rule = ("every document (<=2 scope elements, bounded number of rows; key/keyref rows with "
                 "1-2 fields over {v1, v2, absent}; ID / IDREF rows) enumerated by TLC from "
                 "spec/Identity.tla, up to renaming of values; each judged under several renderings "
-                "(schema class x field type x attribute/element fields x selector spelling)")
+                "(schema class x field type x attribute/element fields x selector spelling; XSD 1.1 also with the rows typed by a type alternative)")
     ctx.assumptions += [
         "field values are value-space classes; the renderer gives equal values different lexical "
         "forms (1/01/+1, 1.0/1.00, true/1, same QName under two prefixes)",
